@@ -383,10 +383,10 @@ func streamC19(h *H) {
 			exit, hang, outText := 0, false, ""
 			t0 := time.Now()
 			if c.child {
-				exit, outText, hang = vChildRestic(repoDir, sb, 60*time.Second, args...)
+				exit, outText, hang = vChildRestic(repoDir, sb, 240*time.Second, args...)
 			} else {
 				var r CmdResult
-				fin := vWithTimeout(60*time.Second, func(ctx context.Context) { r = cli.RunCtx(ctx, args...) })
+				fin := vWithTimeout(240*time.Second, func(ctx context.Context) { r = cli.RunCtx(ctx, args...) })
 				hang = !fin
 				exit = r.Exit
 				outText = r.Stderr
